@@ -8,7 +8,9 @@ bitwise; last column == the one before it.  Price series with NON-POSITIVE entri
 simulations crossing zero) for every feature, the closed-form models and shared feature objects: nan / -inf compared as equal (nan == nan),
 non-anticipativity demanded of whatever is produced.  Hedgers with user FORWARD HOOKS / PRE-HOOKS registered after construction (hedger or
 model; appended / prepended / with_kwargs; lot-size rounding, caps, feature transforms), both evaluation orders: last column, perturbation
-experiment, bitwise agreement with the hook-free hedger the hook protocol implies (also sent to the Lean model where expressible).
+experiment, bitwise agreement with the hook-free hedger the hook protocol implies (also sent to the Lean model where expressible).  Every such scenario is also run through the Lean model of
+the hook protocol itself (Model/Hooks.lean `computeHedgeHooked`, op "hooked_hedge", Float carrier): the positions AND the value of `prev_output`
+the features read at each step (recorded on the real hedger by an observing pre-hook) are compared exactly.
 """
 from fractions import Fraction as F
 from common import *  # noqa
@@ -555,7 +557,25 @@ def hook_json(spec):
     return {"kind": spec["kind"], "lot": rat_str(spec["lot"]), "cap": rat_str(spec["cap"]), "floor": rat_str(spec["floor"])}
 
 
-def hooked_hedgers(ctx, torch, g, reqs, metas):
+# the Lean model of the hook protocol (op "hooked_hedge"): where a harness placement sits in the model's hook lists (execution order)
+HOOK_LEAN_KEY = {"hedger": "appended", "hedger_kwargs": "appended", "hedger_prepend": "prepended", "model": "model_hooks",
+                 "pre_hedger": "pre", "pre_model": "model_pre"}
+
+
+def hook_lean_json(spec):
+    return {"kind": spec["kind"], "lot": float_bits(float(spec["lot"])), "cap": float_bits(float(spec["cap"])),
+            "floor": float_bits(float(spec["floor"]))}
+
+
+def same_rows(mv, rows, tol, bs):
+    """model rows vs implementation rows: exact, or (log features / closed-form models) within the tolerance of the "hedge" op"""
+    if not tol:
+        return mv == rows
+    return len(mv) == len(rows) and all(len(a) == len(b) and all((near(x, y) or (bs and abs(x - y) <= 1e-9)) for x, y in zip(a, b))
+                                        for a, b in zip(mv, rows))
+
+
+def hooked_hedgers(ctx, torch, g, reqs, metas, hreqs=None, hmetas=None):
     from pfhedge.nn import Hedger, BlackScholes, WhalleyWilmott
     from pfhedge.features import ModuleOutput
 
@@ -618,6 +638,9 @@ def hooked_hedgers(ctx, torch, g, reqs, metas):
                     def mk_feats():
                         return list(mk_model().inputs())
                     msj = {"kind": kind, "a": a}
+                    hook_msj = {"kind": "bs_european", "call": mk["call"], "k": float_bits(float(mk["strike"]))} if kind == "bs" else \
+                        {"kind": "ww_european", "call": mk["call"], "k": float_bits(float(mk["strike"])), "cost": float_bits(float(mk["cost"])),
+                         "a": float_bits(a)}
                 else:
                     d, u = build_derivative(torch, mk)
                     names = [g.choice(pool) for _ in range(g.choice([1, 2, 3]))]
@@ -645,6 +668,7 @@ def hooked_hedgers(ctx, torch, g, reqs, metas):
                     def mk_model():
                         return model_obj(torch, ms)
                     msj = model_json(ms)
+                    hook_msj = msj
                     # the hedger the hook implies, where the model language can express it (sent to the Lean model as well)
                     if ms["kind"] == "linear" and spec["kind"] == "relu" and not pre and (where in ("hedger_prepend", "model") or not stepwise):
                         lean_ms = dict(ms, relu=True)
@@ -676,6 +700,12 @@ def hooked_hedgers(ctx, torch, g, reqs, metas):
                     inject(torch, u, mk)
                     st, out, mut = call_impl(hedger.compute_hedge, d, hedge, watch=[("derivative", d)])
                     sto, exp, _ = call_impl(oracle.compute_hedge, d, hedge)
+                    # which value do the features read?  an observing pre-hook (returns None) records `prev_output` at every call
+                    seen_prev, st_obs, out_obs = [], None, None
+                    if stepwise and hreqs is not None:
+                        obs = hedger.register_forward_pre_hook(lambda m_, a_: seen_prev.append(m_.prev_output.detach().clone()))
+                        st_obs, out_obs, _ = call_impl(hedger.compute_hedge, d, hedge)
+                        obs.remove()
                     inject(torch, u, m2)
                     st2, out2, _ = call_impl(hedger.compute_hedge, d, hedge)
                     inject(torch, u, mk)
@@ -728,6 +758,129 @@ def hooked_hedgers(ctx, torch, g, reqs, metas):
                         reqs.append({"op": "hedge", "market": market_json(mk, p), "features": fj, "model": model_json(lean_ms), "n": T, "h": H})
                         metas.append((case | {"path": p}, tol, [[base[p][hh][tt] for hh in range(H)] for tt in range(T)]))
                         ctx.stats["hooks:sent-to-model"] += 1
+                # --- the Lean model of the hook protocol on the same scenario: positions and the values read by prev_hedge
+                if hreqs is not None:
+                    tol = kind in ("bs", "ww") or any(nm in LOG_FEATURES or nm == "time_to_maturity" for nm in names)
+                    if tol and spec["kind"] in ("lot", "lot_cap"):
+                        # rounding to lots is discontinuous: a last-bit difference of a logarithm may move a position by a whole lot
+                        ctx.stats["hooks:protocol-model:skipped(lot rounding of inexact features)"] += 1
+                        continue
+                    reads = None
+                    if stepwise:
+                        if st_obs != "ok" or not same_nan(out_obs.detach().tolist(), base) or len(seen_prev) != T - 1 or \
+                                any(tuple(x.shape) != (N, 1, H) for x in seen_prev):
+                            ctx.fail("an observing forward pre-hook (returning None) changes the hedge, or the hedger was not called once per step "
+                                     "with a (N, 1, H) prev_output", case, key="compute_hedge:hooks:observer",
+                                     detail={"calls": len(seen_prev), "shapes": [list(x.shape) for x in seen_prev][:4]})
+                            continue
+                        reads = [x.tolist() for x in seen_prev]
+                    for p in range(N):
+                        hreqs.append({"op": "hooked_hedge", "market": market_json(mk, p), "features": fj, "model": hook_msj, "n": T, "h": H,
+                                      HOOK_LEAN_KEY[where]: [hook_lean_json(spec)]})
+                        hmetas.append((case | {"path": p}, tol, [[base[p][hh][tt] for hh in range(H)] for tt in range(T)],
+                                       None if reads is None else [[reads[tt][p][0][hh] for hh in range(H)] for tt in range(T - 1)]))
+                        ctx.stats["hooks:protocol-model"] += 1
+
+    # ---- SEVERAL hooks at once, in every placement (also prepended model hooks / prepended pre-hooks), registered in random order: the order
+    # in which torch runs them (registration order, prepend=True in front, the one prepended last first) and the position of pfhedge's own
+    # hook among them decide both the positions and what prev_hedge reads.  Compared with the Lean model of the protocol; last column and
+    # perturbation experiment on the real code as above.
+    if hreqs is None:
+        return
+    for rep in range(18 if ctx.tier == "quick" else 90):
+        kind = g.choice(["linear", "mlp", "prev", "prev", "prev_mlp", "prev_mlp"])
+        mk = gen_market(g, T=g.choice([3, 4, 5, 6]))
+        T, N = mk["T"], mk["N"]
+        stepwise = kind in ("prev", "prev_mlp")
+        H = g.choice([1, 1, 2, 3])
+        thr = g.choice([x for p in mk["spot"] for x in p])
+        d, u = build_derivative(torch, mk)
+        names = [g.choice(pool) for _ in range(g.choice([1, 2, 3]))]
+        width = len(names) + (H if stepwise else 0)
+        ms = gen_mlp(g, width, H) if kind in ("mlp", "prev_mlp") else gen_linear(g, width, H)
+        feats = [feature_obj(torch, nm, mk, thr) for nm in names] + (["prev_hedge"] if stepwise else [])
+        fj = [feature_json(nm, thr) for nm in names] + ([["prev_hedge"]] if stepwise else [])
+        tol = any(nm in LOG_FEATURES or nm == "time_to_maturity" for nm in names)
+        hedge = [u] + extra_hedges(torch, g, mk, H - 1)
+        hedger = Hedger(model_obj(torch, ms), feats)
+        lists = {k: [] for k in ("prepended", "appended", "pre", "model_pre", "model_hooks")}
+        placed = []
+        for _ in range(g.choice([2, 3, 4, 5])):
+            where = g.choice(HOOK_WHERE + ["hedger", "hedger_prepend", "model_prepend", "pre_hedger_prepend"])
+            spec = gen_hook(g, [k for k in HOOK_KINDS if not (tol and k in ("lot", "lot_cap"))])
+            fn, hj = hook_fn(spec), hook_lean_json(spec)
+            if where == "model_prepend":
+                hedger.model.register_forward_hook(lambda m_, i_, o_, fn=fn: fn(o_), prepend=True)
+                lists["model_hooks"].insert(0, hj)
+            elif where == "pre_hedger_prepend":
+                hedger.register_forward_pre_hook(lambda m_, a_, fn=fn: (fn(a_[0]),), prepend=True)
+                lists["pre"].insert(0, hj)
+            else:
+                register(hedger, where, fn)
+                if where == "hedger_prepend":
+                    lists["prepended"].insert(0, hj)
+                else:
+                    lists[HOOK_LEAN_KEY[where]].append(hj)
+            placed.append([where, hook_json(spec)])
+        if stepwise:
+            names = names + ["prev_hedge"]
+        t = g.randint(0, T - 2)
+        m2 = perturb(g, mk, t)
+        grad_on = g.chance(0.3)
+        case = {"forward_hooks": "several", "hooks_in_registration_order": placed, "kind": kind, "stepwise": stepwise, "H": H, "features": names,
+                "thr": rat_str(thr), "model": model_json(ms), "option": mk["option"], "primary": mk["primary"], "T": T, "N": N,
+                "spot": enc_rat(mk["spot"]), "vol": enc_rat(mk["vol"]), "strike": rat_str(mk["strike"]), "dt": rat_str(mk["dt"]),
+                "call": mk["call"], "cost": rat_str(mk["cost"]), "t": t, "grad_enabled": grad_on}
+        seen_prev = []
+        with torch.set_grad_enabled(grad_on):
+            inject(torch, u, mk)
+            st, out, mut = call_impl(hedger.compute_hedge, d, hedge, watch=[("derivative", d)])
+            st_obs, out_obs = "ok", out
+            if stepwise:
+                obs = hedger.register_forward_pre_hook(lambda m_, a_: seen_prev.append(m_.prev_output.detach().clone()))
+                st_obs, out_obs, _ = call_impl(hedger.compute_hedge, d, hedge)
+                obs.remove()
+            inject(torch, u, m2)
+            st2, out2, _ = call_impl(hedger.compute_hedge, d, hedge)
+            inject(torch, u, mk)
+        if mut:
+            ctx.mutated("compute_hedge", mut, case)
+        ctx.stats["hooks:several"] += 1
+        ctx.case(case, True, tag="forward_hooks_several")
+        ctx.traces += 1
+        if not (st == st2 == st_obs == "ok"):
+            ctx.fail("compute_hedge raised for a hedger with several user forward (pre-)hooks", case, key="compute_hedge:hooks:error",
+                     detail=[str(x)[:100] for x in (out, out2, out_obs) if not hasattr(x, "shape")])
+            continue
+        out, out2, out_obs = out.detach(), out2.detach(), out_obs.detach()
+        if tuple(out.shape) != (N, H, T) or tuple(out2.shape) != (N, H, T):
+            ctx.fail("compute_hedge has the wrong shape (hedger with several forward hooks)", case, key="compute_hedge:hooks:shape", detail=list(out.shape))
+            continue
+        base, pert = out.tolist(), out2.tolist()
+        if any(not same_nan(r[T - 1], r[T - 2]) for pth in base for r in pth) or any(not same_nan(r[T - 1], r[T - 2]) for pth in pert for r in pth):
+            ctx.fail("the position at the final time index differs from the one held over the last step for a hedger with several user forward "
+                     "(pre-)hooks: a trade at maturity", case, key="compute_hedge:hooks:last-column", detail={"hedge": base, "hedge_perturbed_market": pert})
+        for p in range(N):
+            bad = [hh for hh in range(H) if not same_nan(base[p][hh][: t + 1], pert[p][hh][: t + 1])]
+            if bad:
+                hh = bad[0]
+                ctx.fail("hedge ratios for steps 0..t change when only prices/variances after step t are changed (look-ahead; hedger with several "
+                         "user forward hooks)", case | {"perturbed_spot": enc_rat(m2["spot"]), "perturbed_vol": enc_rat(m2["vol"])},
+                         key="compute_hedge:hooks:lookahead", detail={"before": base[p][hh][: t + 1], "after": pert[p][hh][: t + 1], "path": p})
+                break
+        reads = None
+        if stepwise:
+            if not same_nan(out_obs.tolist(), base) or len(seen_prev) != T - 1 or any(tuple(x.shape) != (N, 1, H) for x in seen_prev):
+                ctx.fail("an observing forward pre-hook (returning None) changes the hedge, or the hedger was not called once per step "
+                         "with a (N, 1, H) prev_output", case, key="compute_hedge:hooks:observer",
+                         detail={"calls": len(seen_prev), "shapes": [list(x.shape) for x in seen_prev][:4]})
+                continue
+            reads = [x.tolist() for x in seen_prev]
+        for p in range(N):
+            hreqs.append({"op": "hooked_hedge", "market": market_json(mk, p), "features": fj, "model": model_json(ms), "n": T, "h": H} | lists)
+            hmetas.append((case | {"path": p}, tol, [[base[p][hh][tt] for hh in range(H)] for tt in range(T)],
+                           None if reads is None else [[reads[tt][p][0][hh] for hh in range(H)] for tt in range(T - 1)]))
+            ctx.stats["hooks:protocol-model:several"] += 1
 
 
 def check(ctx):
@@ -913,12 +1066,31 @@ def check(ctx):
     nonpositive_prices(ctx, torch, g, reqs, metas)
     # ---------------- hedgers with user forward hooks / pre-hooks (lot-size rounding, position caps, feature transforms), registered after
     # construction on the hedger or on its model, state-independent and prev_hedge-consuming inputs
-    hooked_hedgers(ctx, torch, g, reqs, metas)
+    hreqs, hmetas = [], []
+    hooked_hedgers(ctx, torch, g, reqs, metas, hreqs, hmetas)
     try:
-        outs = ctx.driver(reqs)
+        outs = ctx.driver(reqs + hreqs)
     except DriverBroken as e:
         ctx.ties_broken.append({"kind": "driver", "detail": str(e)[:1500]})
         outs = []
+    outs, houts = outs[:len(reqs)], outs[len(reqs):]
+    # the model of the hook protocol: positions, and the value of prev_output read at every step
+    for (case, tol, rows, reads), mo in zip(hmetas, houts):
+        bs = case["kind"] in ("bs", "ww")
+        if "ok" not in mo:
+            ctx.stats["hooks:protocol-model:disagreements"] += 1
+            ctx.disagree("hooked_hedge", case, rows, mo)
+            continue
+        mv = dec_flt(mo["ok"])
+        if not same_rows(mv, rows, tol, bs):
+            ctx.stats["hooks:protocol-model:disagreements"] += 1
+            ctx.disagree("hooked_hedge", case, rows, mv)
+            continue
+        if reads is not None:
+            mr = dec_flt(mo["reads"])
+            if not same_rows(mr, reads, tol, bs):
+                ctx.stats["hooks:protocol-model:disagreements"] += 1
+                ctx.disagree("hooked_hedge", case, reads, mr, note="value of prev_output read by the features at each step")
     for (case, tol, rows), mo in zip(metas, outs):
         if "ok" not in mo:
             ctx.disagree("hedge", case, rows, mo)
@@ -940,4 +1112,5 @@ def check(ctx):
              "feature x underlier x derivative, BlackScholes / WhalleyWilmott and shared ModuleOutput objects, the perturbation always moving the "
              "smallest positive price, nan-aware bitwise comparison; hedgers with user forward hooks / pre-hooks (on the hedger appended / prepended / "
              "with_kwargs, on the model) x all model kinds x both evaluation orders: last column, perturbation, bitwise agreement with the hook-free "
-             "hedger the hook protocol implies, hook removal; distinct = sha1 of canonical case")
+             "hedger the hook protocol implies, hook removal; every hook scenario also against the Lean model of the hook protocol (op hooked_hedge: "
+             "positions and the prev_output value read at each step, exact), plus hedgers with 2-5 hooks at once in random placements and registration order; distinct = sha1 of canonical case")
